@@ -20,6 +20,7 @@ type VerifyOpts struct {
 	Thorough   bool
 	Safety     bool
 	SafetyTags []string
+	OnlyKinds  map[string]bool // when set, only obligations of these kinds are solved and reported (zero-annotation sweeps)
 	Locks      bool
 	LockTags   []string
 	TimeoutS   int
@@ -567,7 +568,7 @@ func (p *Prog) VerifyFunc(fn *ssa.Function, opts VerifyOpts) *FuncResult {
 	for _, ob := range vc.obls {
 		if ob.Smoke {
 			smoke = append(smoke, ob)
-		} else {
+		} else if opts.OnlyKinds == nil || opts.OnlyKinds[ob.Kind] {
 			real = append(real, ob)
 		}
 	}
